@@ -15,6 +15,20 @@ namespace Msmart.CodecEq
 open Msmart.Generated
 open Msmart.Model
 
+/-! conditions `a ≠ b` in either orientation (the translator orders the operands of symmetric comparisons by text) -/
+theorem dec_ne_true {α} [DecidableEq α] {a b : α} (h : a ≠ b) : decide (a ≠ b) = true ∧ decide (b ≠ a) = true := by
+  constructor
+  · simpa using h
+  · simp only [ne_eq, decide_eq_true_eq]; exact fun e => h e.symm
+
+theorem dec_ne_false {α} [DecidableEq α] {a b : α} (h : ¬ a ≠ b) :
+    ¬ (decide (a ≠ b) = true) ∧ ¬ (decide (b ≠ a) = true) := by
+  have e : a = b := by simpa using h
+  subst e; simp
+
+macro "ne_pos" h:ident : tactic => `(tactic| first | exact (dec_ne_true $h).1 | exact (dec_ne_true $h).2 | simpa using $h)
+macro "ne_neg" h:ident : tactic => `(tactic| first | exact (dec_ne_false $h).1 | exact (dec_ne_false $h).2 | simpa using $h)
+
 /-! ### slices with literal bounds -/
 theorem clamp_nonneg (len n : Nat) : Py.clampIdx len (n : Int) = min n len := by
   unfold Py.clampIdx
@@ -139,6 +153,12 @@ theorem pad_eq' (n : Nat) :
     (if decide (Py.band ((n : Int) + 2) 15 ≠ 0) = true then (16 - Py.band ((n : Int) + 2) 15) else 0) = ((v3Pad n : Nat) : Int) := by
   rw [band_15]; exact pad_eq n
 
+theorem pad_eq'' (n : Nat) :
+    (if decide ((0 : Int) ≠ Py.band ((n : Int) + 2) 15) = true then (16 - Py.band ((n : Int) + 2) 15) else 0) = ((v3Pad n : Nat) : Int) := by
+  have hflip : decide ((0 : Int) ≠ Py.band ((n : Int) + 2) 15) = decide (Py.band ((n : Int) + 2) 15 ≠ 0) := by
+    apply decide_eq_decide.mpr; constructor <;> (intro h h2; exact h h2.symm)
+  rw [hflip]; exact pad_eq' n
+
 theorem v3Pad_lt (n : Nat) : v3Pad n < 16 := by unfold v3Pad; split <;> omega
 
 instance {ε α} [DecidableEq ε] [DecidableEq α] : DecidableEq (Except ε α) := fun a b =>
@@ -162,7 +182,7 @@ theorem encodeEncryptedRequest_eq (key : Option Bytes) (packetId : Int) (data ra
      | none => rfl
      | some k =>
        simp only [Option.isNone_some, Bool.false_eq_true, if_false, Option.getD_some]
-       simp only [pad_eq, pad_eq']
+       simp only [pad_eq, pad_eq', pad_eq'']
        rw [padType_fin _ (v3Pad_lt _), ok_bind, buildHeader_eq]
        unfold buildHeaderI overflow
        have e : ((data.length : Int) + ((v3Pad data.length : Nat) : Int) + 32) = ((data.length + v3Pad data.length + 32 : Nat) : Int) := by
@@ -282,8 +302,8 @@ theorem decodeEncryptedResponse_eq (key : Option Bytes) (packet : Bytes) :
          simp only [ok_bind]
          rw [sl_take6, sl_last32]
          by_cases hh : Crypto.SHA256.sha256 (List.take 6 packet ++ dec) ≠ List.drop (packet.length - 32) packet
-         · rw [if_pos hh, if_pos (by simpa using hh)]
-         · rw [if_neg hh, if_neg (by simpa using hh), indexI_take6]
+         · rw [if_pos hh, if_pos (by ne_pos hh)]
+         · rw [if_neg hh, if_neg (by ne_neg hh), indexI_take6]
            cases (List.take 6 packet)[5]? with
            | none => rfl
            | some b5 =>
@@ -306,6 +326,8 @@ theorem indexI_5 (l : Bytes) : Py.indexI l 5 = (match l[5]? with | none => .erro
 
 theorem ne32 (b : UInt8) : decide ((b.toNat : Int) ≠ 32) = decide (b ≠ 0x20) :=
   u8_forall (P := fun b => decide ((b.toNat : Int) ≠ 32) = decide (b ≠ 0x20)) (by decide +kernel) b
+theorem ne32' (b : UInt8) : decide ((32 : Int) ≠ (b.toNat : Int)) = decide (b ≠ 0x20) :=
+  u8_forall (P := fun b => decide ((32 : Int) ≠ (b.toNat : Int)) = decide (b ≠ 0x20)) (by decide +kernel) b
 theorem type_eq (b : UInt8) (t : Nat) (ht : t < 16) : decide (Py.band (b.toNat : Int) 15 = (t : Int)) = decide (b.toNat % 16 = t) := by
   rw [band_15]; congr 1; apply propext; omega
 
@@ -317,13 +339,13 @@ theorem processPacket_eq (key : Option Bytes) (packet : Bytes) :
      unfold Codec.processPacket processPacket
      rw [sl_take2]
      by_cases h0 : List.take 2 packet ≠ [0x83, 0x70]
-     · rw [if_pos h0, if_pos (by simpa using h0)]
-     · rw [if_neg h0, if_neg (by simpa using h0), indexI_4]
+     · rw [if_pos h0, if_pos (by ne_pos h0)]
+     · rw [if_neg h0, if_neg (by ne_neg h0), indexI_4]
        cases packet[4]? with
        | none => rfl
        | some b4 =>
          simp only [ok_bind]
-         rw [ne32]
+         simp only [ne32, ne32']
          by_cases h4 : b4 ≠ 0x20
          · rw [if_pos h4, if_pos (by simpa using h4)]
          · rw [if_neg h4, if_neg (by simpa using h4), indexI_5]
@@ -340,6 +362,9 @@ theorem processPacket_eq (key : Option Bytes) (packet : Bytes) :
              have c3 : ((t : Int) = 3) ↔ t = 3 := by omega
              have c1 : ((t : Int) = 1) ↔ t = 1 := by omega
              have c15 : ((t : Int) = 15) ↔ t = 15 := by omega
+             have c3' : ((3 : Int) = (t : Int)) ↔ t = 3 := by omega
+             have c1' : ((1 : Int) = (t : Int)) ↔ t = 1 := by omega
+             have c15' : ((15 : Int) = (t : Int)) ↔ t = 15 := by omega
              by_cases t3 : t = 3
              · subst t3
                simp
@@ -348,10 +373,30 @@ theorem processPacket_eq (key : Option Bytes) (packet : Bytes) :
                · subst t1
                  simp
                  try rfl
-               · by_cases t15 : t = 15 <;> simp [c3, c1, c15, t3, t1, t15])
+               · by_cases t15 : t = 15 <;> simp [c3, c1, c15, c3', c1', c15', t3, t1, t15])
   | rfl
 
 /-! ### _get_local_key -/
+theorem py_xorBytes_comm (a b : Bytes) (h : a.length = b.length) : Py.xorBytes a b = Py.xorBytes b a := by
+  induction a generalizing b with
+  | nil => cases b with
+    | nil => rfl
+    | cons y ys => simp at h
+  | cons x xs ih =>
+    cases b with
+    | nil => simp at h
+    | cons y ys =>
+      simp only [List.length_cons, Nat.add_right_cancel_iff] at h
+      simp only [Py.xorBytes]
+      rw [ih ys h, UInt8.xor_comm]
+
+/-- `strxor` is symmetric (the translator writes its arguments in text order) -/
+theorem strxor_comm (a b : Bytes) : Py.strxor a b = Py.strxor b a := by
+  unfold Py.strxor
+  by_cases hk : a.length = b.length
+  · rw [if_neg (by omega), if_neg (by omega), py_xorBytes_comm a b hk]
+  · rw [if_pos (by omega), if_pos (by omega)]
+
 /-- **tie.** `_get_local_key` as translated = the model's, for every key and handshake payload. -/
 theorem getLocalKey_eq (key data : Bytes) : Codec.getLocalKey key data = getLocalKey key data := by
   first
@@ -365,13 +410,16 @@ theorem getLocalKey_eq (key data : Bytes) : Codec.getLocalKey key data = getLoca
        | ok dec =>
          simp only [ok_bind]
          by_cases hh : Crypto.SHA256.sha256 dec ≠ List.drop 32 data
-         · rw [if_pos hh, if_pos (by simpa using hh)]
-         · rw [if_neg hh, if_neg (by simpa using hh)]
+         · rw [if_pos hh, if_pos (by ne_pos hh)]
+         · rw [if_neg hh, if_neg (by ne_neg hh)]
+           -- `strxor` in either argument order
+           have hx : Py.strxor key dec = Py.strxor dec key := strxor_comm key dec
+           simp only [hx]
            unfold Py.strxor
            by_cases hk : dec.length ≠ key.length
-           · rw [if_pos hk]; try rw [if_pos hk]
+           · simp only [hk, if_true, ne_eq, not_false_eq_true]
              try rfl
-           · rw [if_neg hk]; try rw [if_neg hk]
+           · simp only [hk, if_false, ne_eq]
              try rfl)
   | rfl
 
@@ -437,16 +485,16 @@ theorem packetDecode_eq (data : Bytes) : Codec.packetDecode data = packetDecode 
      · rw [if_pos h6, if_pos (by simp only [decide_eq_true_eq]; omega)]
      · rw [if_neg h6, if_neg (by simp only [decide_eq_true_eq]; omega)]
        by_cases hm : List.take 2 data ≠ [0x5A, 0x5A]
-       · rw [if_pos hm, if_pos (by simpa using hm)]
-       · rw [if_neg hm, if_neg (by simpa using hm)]
+       · rw [if_pos hm, if_pos (by ne_pos hm)]
+       · rw [if_neg hm, if_neg (by ne_neg hm)]
          by_cases hl : data.length < Py.fromLE ((data.drop 4).take 2)
          · rw [if_pos hl, if_pos (by simp only [decide_eq_true_eq]; omega)]
          · rw [if_neg hl, if_neg (by simp only [decide_eq_true_eq]; omega)]
            rw [slice_take, sl_take_neg16, sl_last16, sl_mid_40_16]
            by_cases hs : sign (List.take ((List.take (Py.fromLE ((data.drop 4).take 2)) data).length - 16) (List.take (Py.fromLE ((data.drop 4).take 2)) data))
                  ≠ List.drop ((List.take (Py.fromLE ((data.drop 4).take 2)) data).length - 16) (List.take (Py.fromLE ((data.drop 4).take 2)) data)
-           · rw [if_pos hs, if_pos (by simpa using hs)]
-           · rw [if_neg hs, if_neg (by simpa using hs), mapErr_decryptAes]
+           · rw [if_pos hs, if_pos (by ne_pos hs)]
+           · rw [if_neg hs, if_neg (by ne_neg hs), mapErr_decryptAes]
              simp only []
              cases decryptAes (List.drop 40 (List.take ((List.take (Py.fromLE ((data.drop 4).take 2)) data).length - 16) (List.take (Py.fromLE ((data.drop 4).take 2)) data))) <;> rfl)
   | rfl
